@@ -333,3 +333,106 @@ theorem linspaceCore_strictMono (a b : K) (n i j : ℕ) (hab : a < b) (hij : i <
   linarith
 
 end Geomdl
+
+namespace Geomdl
+open Blossom Finset
+variable {K : Type} [Field K] [LinearOrder K] [IsStrictOrderedRing K]
+
+/-- **volume evaluation = the definition** (triple tensor product; flat index `v + sv·(u + su·w)`) -/
+theorem volumePointAt_eq_cdb (pu pv pw : ℕ) (Uu Uv Uw : ℕ → K) (su sv sw : ℕ) (P : List (List K))
+    (ku kv kw : ℕ) (u v w : K) (d j : ℕ)
+    (hmu : Monotone Uu) (hmv : Monotone Uv) (hmw : Monotone Uw)
+    (hu1 : Uu ku ≤ u) (hu2 : u < Uu (ku+1)) (hv1 : Uv kv ≤ v) (hv2 : v < Uv (kv+1)) (hw1 : Uw kw ≤ w) (hw2 : w < Uw (kw+1))
+    (hpu : pu ≤ ku) (hpv : pv ≤ kv) (hpw : pw ≤ kw) (hku : ku < su) (hkv : kv < sv) (hkw : kw < sw)
+    (hlen : P.length = su * sv * sw) (hP : NetOk d P) :
+    (volumePointAt pu pv pw Uu Uv Uw su sv P ku kv kw u v w).getD j 0
+      = ∑ a ∈ range su, ∑ b ∈ range sv, ∑ c ∈ range sw,
+          cdb Uu pu a u * cdb Uv pv b v * cdb Uw pw c w * (ptsGet P (b + sv * (a + su * c))).getD j 0 := by
+  have hpos : 0 < P.length := by
+    rw [hlen]; exact Nat.mul_pos (Nat.mul_pos (by omega) (by omega)) (by omega)
+  have hidx : ∀ a b c, a < su → b < sv → c < sw → b + sv * (a + su * c) < P.length := by
+    intro a b c ha hb hc
+    rw [hlen]
+    have h1 : a + su * c < su * sw := by
+      calc a + su * c < su + su * c := by omega
+        _ = su * (c + 1) := by ring
+        _ ≤ su * sw := Nat.mul_le_mul_left _ (by omega)
+    calc b + sv * (a + su * c) < sv + sv * (a + su * c) := by omega
+      _ = sv * (a + su * c + 1) := by ring
+      _ ≤ sv * (su * sw) := Nat.mul_le_mul_left _ (by omega)
+      _ = su * sv * sw := by ring
+  unfold volumePointAt
+  simp only []
+  rw [dimOf_eq hP hpos]
+  -- innermost sums
+  have innerW : ∀ a b, a ≤ pu → b ≤ pv →
+      (linComb d (basisFuns pw Uw kw w)
+        ((List.range (pw+1)).map (fun c => ptsGet P (kv - pv + b + sv * (ku - pu + a + su * (kw - pw + c)))))).getD j 0
+      = ∑ c ∈ range sw, cdb Uw pw c w * (ptsGet P (kv - pv + b + sv * (ku - pu + a + su * c))).getD j 0 := by
+    intro a b ha hb
+    rw [linComb_range d j pw _ (Blossom.basisFuns_length pw Uw kw w) _ (fun c hc =>
+      ptsGet_length hP _ (hidx (ku - pu + a) (kv - pv + b) (kw - pw + c) (by omega) (by omega) (by omega)))]
+    rw [cdb_sum_window Uw kw w hmw hw1 hw2 pw hpw sw hkw (fun c => (ptsGet P (kv - pv + b + sv * (ku - pu + a + su * c))).getD j 0)]
+  have lenW : ∀ a b, a ≤ pu → b ≤ pv →
+      (linComb d (basisFuns pw Uw kw w)
+        ((List.range (pw+1)).map (fun c => ptsGet P (kv - pv + b + sv * (ku - pu + a + su * (kw - pw + c)))))).length = d := by
+    intro a b ha hb
+    apply linComb_length
+    intro pt hpt
+    simp only [List.mem_map, List.mem_range] at hpt
+    obtain ⟨c, hc, rfl⟩ := hpt
+    exact ptsGet_length hP _ (hidx (ku - pu + a) (kv - pv + b) (kw - pw + c) (by omega) (by omega) (by omega))
+  have innerV : ∀ a, a ≤ pu →
+      (linComb d (basisFuns pv Uv kv v) ((List.range (pv+1)).map (fun b =>
+        linComb d (basisFuns pw Uw kw w)
+          ((List.range (pw+1)).map (fun c => ptsGet P (kv - pv + b + sv * (ku - pu + a + su * (kw - pw + c)))))))).getD j 0
+      = ∑ b ∈ range sv, cdb Uv pv b v * ∑ c ∈ range sw, cdb Uw pw c w * (ptsGet P (b + sv * (ku - pu + a + su * c))).getD j 0 := by
+    intro a ha
+    rw [linComb_range d j pv _ (Blossom.basisFuns_length pv Uv kv v) _ (fun b hb => lenW a b ha hb)]
+    have step : ∑ b ∈ range (pv + 1), (basisFuns pv Uv kv v).getD b 0 *
+          (linComb d (basisFuns pw Uw kw w)
+            ((List.range (pw+1)).map (fun c => ptsGet P (kv - pv + b + sv * (ku - pu + a + su * (kw - pw + c)))))).getD j 0
+        = ∑ b ∈ range (pv + 1), (basisFuns pv Uv kv v).getD b 0 *
+            ∑ c ∈ range sw, cdb Uw pw c w * (ptsGet P (kv - pv + b + sv * (ku - pu + a + su * c))).getD j 0 := by
+      apply Finset.sum_congr rfl
+      intro b hb
+      rw [Finset.mem_range] at hb
+      rw [innerW a b ha (by omega)]
+    rw [step]
+    rw [cdb_sum_window Uv kv v hmv hv1 hv2 pv hpv sv hkv
+          (fun b => ∑ c ∈ range sw, cdb Uw pw c w * (ptsGet P (b + sv * (ku - pu + a + su * c))).getD j 0)]
+  have lenV : ∀ a, a ≤ pu →
+      (linComb d (basisFuns pv Uv kv v) ((List.range (pv+1)).map (fun b =>
+        linComb d (basisFuns pw Uw kw w)
+          ((List.range (pw+1)).map (fun c => ptsGet P (kv - pv + b + sv * (ku - pu + a + su * (kw - pw + c)))))))).length = d := by
+    intro a ha
+    apply linComb_length
+    intro pt hpt
+    simp only [List.mem_map, List.mem_range] at hpt
+    obtain ⟨b, hb, rfl⟩ := hpt
+    exact lenW a b ha (by omega)
+  rw [linComb_range d j pu _ (Blossom.basisFuns_length pu Uu ku u) _ (fun a ha => lenV a ha)]
+  have stepU : ∑ a ∈ range (pu + 1), (basisFuns pu Uu ku u).getD a 0 *
+        (linComb d (basisFuns pv Uv kv v) ((List.range (pv+1)).map (fun b =>
+          linComb d (basisFuns pw Uw kw w)
+            ((List.range (pw+1)).map (fun c => ptsGet P (kv - pv + b + sv * (ku - pu + a + su * (kw - pw + c)))))))).getD j 0
+      = ∑ a ∈ range (pu + 1), (basisFuns pu Uu ku u).getD a 0 *
+          ∑ b ∈ range sv, cdb Uv pv b v * ∑ c ∈ range sw, cdb Uw pw c w * (ptsGet P (b + sv * (ku - pu + a + su * c))).getD j 0 := by
+    apply Finset.sum_congr rfl
+    intro a ha
+    rw [Finset.mem_range] at ha
+    rw [innerV a (by omega)]
+  rw [stepU]
+  rw [← cdb_sum_window Uu ku u hmu hu1 hu2 pu hpu su hku
+        (fun a => ∑ b ∈ range sv, cdb Uv pv b v * ∑ c ∈ range sw, cdb Uw pw c w * (ptsGet P (b + sv * (a + su * c))).getD j 0)]
+  apply Finset.sum_congr rfl
+  intro a _
+  rw [Finset.mul_sum]
+  apply Finset.sum_congr rfl
+  intro b _
+  rw [Finset.mul_sum, Finset.mul_sum]
+  apply Finset.sum_congr rfl
+  intro c _
+  ring
+
+end Geomdl
